@@ -23,7 +23,7 @@ structure InvFlush (s : St) : Prop where
   ws_reg : ∀ w ∈ s.rx.ws, w ∈ s.registered
 
 theorem invFlush_init : InvFlush init := by
-  constructor <;> simp [init, Rx.inflight, Rx.ws]
+  constructor <;> simp [init]
 
 theorem invFlush_rxTake (s s' : St) (h : InvFlush s) (hs : rxTake s = some s') : InvFlush s' := by
   obtain ⟨h0, h1, h2, h3, h4, h5, h6, h7, h8, h9⟩ := h
@@ -31,11 +31,11 @@ theorem invFlush_rxTake (s s' : St) (h : InvFlush s) (hs : rxTake s = some s') :
   repeat' (split at hs)
   all_goals (first | (simp at hs; done) | skip)
   all_goals (simp only [Option.some.injEq] at hs; subst hs)
-  all_goals (constructor <;> simp_all [Done, Rx.inflight, Rx.ws] <;> first | assumption | grind)
+  all_goals (constructor <;> simp_all [Done] <;> first | assumption | grind)
 
 
 macro "flush_close" : tactic => `(tactic|
-  (constructor <;> simp_all [Done, Rx.inflight, Rx.ws] <;> first | assumption | grind))
+  (constructor <;> simp_all [Done] <;> first | assumption | grind))
 
 theorem invFlush_rxBegin (cfg : Cfg) (s s' : St) (h : InvFlush s) (hs : rxBegin cfg s = some s') : InvFlush s' := by
   obtain ⟨h0, h1, h2, h3, h4, h5, h6, h7, h8, h9⟩ := h
@@ -97,6 +97,18 @@ theorem invFlush_rxOutcome (cfg : Cfg) (s s' : St) (o : Outcome) (h : InvFlush s
     all_goals
       simp only [Option.some.injEq] at hs; subst hs
       exact hc _ rfl rfl rfl rfl rfl rfl rfl rfl rfl rfl rfl
+
+theorem invFlush_rxFireTake (s s' : St) (h : InvFlush s) (hs : rxFireTake s = some s') : InvFlush s' := by
+  obtain ⟨h0, h1, h2, h3, h4, h5, h6, h7, h8, h9⟩ := h
+  simp only [rxFireTake] at hs
+  flush_split hs
+  all_goals flush_close
+
+theorem invFlush_rxFireFlush (s s' : St) (h : InvFlush s) (hs : rxFireFlush s = some s') : InvFlush s' := by
+  obtain ⟨h0, h1, h2, h3, h4, h5, h6, h7, h8, h9⟩ := h
+  simp only [rxFireFlush] at hs
+  flush_split hs
+  all_goals flush_close
 
 theorem invFlush_rxRetryWaited (s s' : St) (h : InvFlush s) (hs : rxRetryWaited s = some s') : InvFlush s' := by
   obtain ⟨h0, h1, h2, h3, h4, h5, h6, h7, h8, h9⟩ := h
@@ -280,6 +292,16 @@ theorem invF_step (cfg : Cfg) (s : St) (l : Label) (s' : St) (h : InvF s) (hs : 
     have hr : s'.registered = s.registered ∧ s'.tornDown = s.tornDown := by
       simp only [rxTake] at hs; flush_split hs <;> exact ⟨rfl, rfl⟩
     exact invFlush_rxTake s s' (h (hr.1 ▸ hn) (hr.2 ▸ ht)) hs
+  case rxFireTake =>
+    simp only [step] at hs
+    have hr : s'.registered = s.registered ∧ s'.tornDown = s.tornDown := by
+      simp only [rxFireTake] at hs; flush_split hs <;> exact ⟨rfl, rfl⟩
+    exact invFlush_rxFireTake s s' (h (hr.1 ▸ hn) (hr.2 ▸ ht)) hs
+  case rxFireFlush =>
+    simp only [step] at hs
+    have hr : s'.registered = s.registered ∧ s'.tornDown = s.tornDown := by
+      simp only [rxFireFlush] at hs; flush_split hs <;> exact ⟨rfl, rfl⟩
+    exact invFlush_rxFireFlush s s' (h (hr.1 ▸ hn) (hr.2 ▸ ht)) hs
   case rxBegin =>
     simp only [step] at hs
     have hr : s'.registered = s.registered ∧ s'.tornDown = s.tornDown := by
